@@ -255,7 +255,7 @@ func indTrieUnit(c *core.Ctx, e *cat.Ind, cfg []float64, prop string) {
 					if len(r.Res.UncheckedZero) > 0 {
 						key = "seed-read-from-closed-stream"
 					}
-					if e.Name == "momentum.IchimokuCloud" && j == 4 && len(o) == min(nlen, want+cat.I(cfg, 3)) {
+					if e.Name == "momentum.IchimokuCloud" && j == 4 && len(o) == max(0, nlen+cat.I(cfg, 3)-w) {
 						key = "ichimoku-lagging-span-longer"
 					}
 					cs := mk()
@@ -403,7 +403,9 @@ func init() {
 		Rule: "input trie: states = words over the per-indicator alphabet up to depth N (every node is executed on the real Compute), transitions = scheduler events executed; a node is non-trivial when at least one output position was compared with the documented formula (not exempt)"})
 	core.Register(&core.Check{ID: "C02", Units: indUnits("C02"), Assume: indAssume,
 		Rule: "input trie as C01; oracle: every output has exactly max(0,n-w) values; non-trivial = nodes with n > w"})
-	core.Register(&core.Check{ID: "C04", Units: indUnits("C04"), Assume: indAssume,
+	core.Register(&core.Check{ID: "C04", Units: func(tier string) []core.Unit {
+		return append(append(indUnits("C04")(tier), stratUnits("C04")(tier)...), wrapperUnits("C04")(tier)...)
+	}, Assume: indAssume,
 		Rule: "every edge (s, s+symbol) of the input trie: outputs(s) must be a bit-identical prefix of outputs(s+symbol); non-trivial = edges whose parent has a non-empty output"})
 	core.Register(&core.Check{ID: "C15", Units: indUnits("C15"), Assume: indAssume,
 		Rule: "input trie over valid OHLCV / positive alphabets; oracle: documented range and ordering inequalities at every non-exempt position; non-trivial = nodes with at least one output value"})
